@@ -158,6 +158,7 @@ func checkC18(c *fw.Ctx) {
 	checkF10(c)
 	checkF11(c)
 	checkF12(c)
+	checkF13(c)
 	// a v12 event must stay a v12 event: an eventV2 copy of it panics in RoomID() (shared with C03.9)
 	checkDerivedTypePreserved(c)
 }
